@@ -106,7 +106,18 @@ class SequenceOfEncoder(AbstractItemEncoder):
 
 
 class ChoiceEncoder(SequenceEncoder):
-    pass
+    def encode(self, value, encodeFun, **options):
+        inconsistency = value.isInconsistent
+        if inconsistency:
+            raise inconsistency
+
+        substrate = self.protoDict()
+
+        # just the chosen alternative (positions must not be probed)
+        for key, subValue in value.items():
+            substrate[key] = encodeFun(subValue, **options)
+
+        return substrate
 
 
 class AnyEncoder(AbstractItemEncoder):
